@@ -51,6 +51,11 @@ Semantic conventions (the same as the hand model's, stated in Model/C06.lean):
   exact value, now a Python number; on B `x` is known to be a Python number — and translated only if both paths
   do the same.  A parameter of `update` that reaches arithmetic, an attribute or a list before such a conversion
   makes the emitted flag `updateConvertsNumpy` false (the sums would be computed in a narrow numpy type).
+  Any other test built from the same numpy type atoms that cannot raise (e.g. `isinstance(x, np.ndarray)`) is not
+  a property of the value either: both paths are executed and must do the same.  Identity-on-value calls only:
+  `x.copy()` where the test excludes Python numbers, `copy.copy(x)` / `copy.deepcopy(x)` (same kind of object),
+  `np.array(x)` / `np.copy(x)` / `np.asarray(x)` (a numpy object again: counts as unconverted unless x is known to
+  be one).  `x.item()` only under the conversion test; `x.astype(…)`, `x * 1`, … are what they are.
   Static helpers (`Result._x(…)` / `self._x(…)` of a @staticmethod) see neither `self` nor the caller's names.
 """
 import ast
@@ -148,6 +153,10 @@ class _NotNp(Exception):
     pass
 
 
+class _NpRaises(Exception):
+    pass
+
+
 def _np_eval(e, x, kind):
     """truth value of a test built from isinstance(x, np.generic | np.ndarray | tuple of them), `x.ndim == 0`,
     `np.ndim(x) == 0`, and / or / not, for x a Python number / None ('py'), a numpy scalar ('generic'), a 0-d array
@@ -174,7 +183,7 @@ def _np_eval(e, x, kind):
         l = ast.unparse(e.left)
         if l == '%s.ndim' % x:
             if kind == 'py':
-                raise _NotNp()                  # AttributeError on a Python number
+                raise _NpRaises()               # AttributeError on a Python number
             return True
         if l == 'np.ndim(%s)' % x:
             return True
@@ -189,9 +198,25 @@ def np_scalar_test(e):
     x = names.pop()
     try:
         ok = (_np_eval(e, x, 'py') is False and _np_eval(e, x, 'generic') is True and _np_eval(e, x, 'arr0') is True)
-    except _NotNp:
+    except (_NotNp, _NpRaises):
         return None
     return x if ok else None
+
+
+def np_type_test(e):
+    """the variable x if `e` is any test built from the numpy type atoms of `_np_eval` over the single name x"""
+    names = {n.id for n in ast.walk(e) if isinstance(n, ast.Name)} - {'isinstance', 'np'}
+    if len(names) != 1:
+        return None
+    x = names.pop()
+    for kind in ('py', 'generic', 'arr0'):
+        try:
+            _np_eval(e, x, kind)
+        except _NpRaises:
+            pass
+        except _NotNp:
+            return None
+    return x
 
 
 class Exec:
@@ -449,6 +474,21 @@ class Exec:
                 # the equivalent Python number: the same exact value
                 return V(base.ty, base.tx, base.py, raw=False)
             fail('x.item() outside `if <x is a numpy scalar / 0-d array>`', e)
+        if isinstance(f, ast.Attribute) and f.attr == 'copy' and not e.args and not e.keywords \
+                and not (isinstance(f.value, ast.Name) and f.value.id in ('copy', 'np')):
+            base = self.eval(f.value, st, guards)
+            if base.ty in ('num', 'optnum', 'none') and (st.facts.get('np:%s' % base.tx) is True
+                                                         or st.facts.get('npobj:%s' % base.tx) is True):
+                return base                 # a copy of a numpy object: the same value, the same kind of object
+            fail('x.copy() where x may be a Python number', e)
+        if ast.unparse(f) in ('copy.copy', 'copy.deepcopy', 'np.copy', 'np.array', 'np.asarray') \
+                and len(e.args) == 1 and not e.keywords and 'copy' not in st.env and 'np' not in st.env:
+            base = self.eval(e.args[0], st, guards)
+            if base.ty in ('num', 'optnum', 'none'):
+                if ast.unparse(f).startswith('copy.') or st.facts.get('npobj:%s' % base.tx) is True:
+                    return base             # the same value, the same kind of object
+                return V(base.ty, base.tx, base.py, raw=True)      # the same value, as a numpy object again
+            fail('copy of %s' % base.ty, e)
         if isinstance(f, ast.Name) and f.id not in st.env:
             if f.id == 'cast' and len(e.args) == 2 and not e.keywords:
                 return self.eval(e.args[1], st, guards)
@@ -578,6 +618,9 @@ class Exec:
     # ------------------------------------------------------------------ conditions
     def cond(self, e, st):
         """('const', bool) | ('prop', lean Prop text) | ('isnone', V, polarity)"""
+        x = np_type_test(e)
+        if x is not None and x in st.env and st.env[x].ty in ('num', 'optnum', 'none'):
+            fail('numpy type test outside the test of an `if` statement: %s' % ast.unparse(e)[:60], e)
         if isinstance(e, ast.UnaryOp) and isinstance(e.op, ast.Not):
             c = self.cond(e.operand, st)
             return self.negate(c)
@@ -771,7 +814,34 @@ class Exec:
             return Leaf('fall', st)
         s, rest = stmts[0], stmts[1:]
         if isinstance(s, ast.If):
-            x = np_scalar_test(s.test)
+            x = np_type_test(s.test)
+            v = None
+            if x is not None and x in st.env and st.env[x].ty in ('num', 'optnum', 'none'):
+                v = self.eval(ast.Name(id=x, ctx=ast.Load()), st, [])
+            if v is not None and v.ty in ('num', 'optnum', 'none') and not (v.raw and np_scalar_test(s.test)):
+                # another numpy type test (or one on a number that is already a Python number): its outcome is
+                # not a property of the value, so both paths must do the same.  Where the test excludes Python
+                # numbers `x.copy()` is possible (the same value)
+                for kind in ('py', 'generic', 'arr0'):
+                    try:
+                        _np_eval(s.test, x, kind)
+                    except _NpRaises:
+                        fail('a numpy type test that may raise: %s' % ast.unparse(s.test)[:60], s)
+                sa, sb = st.fork(), st.fork()
+                if _np_eval(s.test, x, 'py') is False:
+                    sa.facts['npobj:%s' % v.tx] = True
+                    if np_scalar_test(s.test):
+                        sa.facts['np:%s' % v.tx] = True       # a repeated conversion: x.item() is the same value
+                else:
+                    sb.facts['npobj:%s' % v.tx] = True
+                n0 = self.counter
+                ta = self.block(s.body + rest, sa)
+                n1, self.counter = self.counter, n0
+                tb = self.block(s.orelse + rest, sb)
+                if n1 != self.counter or not self.same_tree(ta, tb):
+                    fail('the numpy type test on %s changes more than the representation of the number' % x, s)
+                return tb
+            x = np_scalar_test(s.test) if (v is not None and v.raw) else None
             if x is not None and x in st.env and st.env[x].ty in ('num', 'optnum', 'none'):
                 # `if <x is a numpy scalar or a 0-d array>: A else: B`.  The model's numbers are exact values, a
                 # numpy scalar and the Python number `x.item()` are the same value: both paths (A, where x.item()
